@@ -97,6 +97,21 @@ type Registry struct {
 	Keys     map[string]*btcec.PrivateKey // lock keys K1..
 	wits     map[string]string            // witness string -> id
 	OutOrder []string
+	nMq, nLq int // quote ids are allocated per request, accepted or not
+}
+
+// NextQuoteID allocates the abstract id of the next mint ("mq") or melt ("lq") quote request.  Ids are
+// given per request, not per accepted request, so that a history can name the quote a refused request would
+// have created (and follow it up if the implementation accepted it after all).
+func (r *Registry) NextQuoteID(kind string) string {
+	r.mu.Lock()
+	defer r.mu.Unlock()
+	if kind == "mq" {
+		r.nMq++
+		return fmt.Sprintf("mq%d", r.nMq)
+	}
+	r.nLq++
+	return fmt.Sprintf("lq%d", r.nLq)
 }
 
 func NewRegistry() *Registry {
